@@ -11,6 +11,7 @@
 (V)  the variant the code implements (guarded or not) is read off the recorded iteration classes and reported next to the model verdicts.
 """
 import json, os, shutil
+from concurrent.futures import ThreadPoolExecutor
 from vf import build, tlc, trace, tlclive
 from vf import run as hrun
 from vf.core import InfraError
@@ -96,18 +97,21 @@ def build_cases(ctx, recs):
         if e["kind"] == "resp":
             cov[(json.dumps(e["cells"]), tuple(e["y"]))] = (e["cov"], e["ycst"])
 
-    def add(site, kind, e, req, npc, rank, rlo, noise, cblk=0, scaling=0, ys=None, widths=()):
+    def add(site, kind, e, req, npc, rank, rlo, noise, cblk=0, scaling=0, ys=None, widths=(), cells=None):
         ys = ys or []
+        cells = cells or e["cells"]
         cases.append(dict(id=len(cases) + 1, site=site, kind=kind, scaling=scaling, npc_req=req, npc=npc, rank=rank, rlo=rlo, noise=noise, cblk=cblk,
-                          ex=e["ex"], nr=e["nr"], nc=e["nc"], x=_flat(e["cells"]), ny=(len(ys) // e["nr"]) if ys else 0, y=ys, widths=list(widths)))
+                          ex=e["ex"], nr=e["nr"], nc=len(cells[0]), x=_flat(cells), ny=(len(ys) // e["nr"]) if ys else 0, y=ys, widths=list(widths)))
 
     for idx, e in enumerate(recs):
         nr, nc, rk = e["nr"], e["nc"], e["rankc"]
         noise = 0 if rk == 0 else 1
         if e["kind"] in ("mat", "pert"):
             reqs = list(range(1, nc + 3))
-            if q:
-                reqs = [nc + 2] if e["kind"] == "pert" else [r_ for r_ in reqs if r_ != nc + 1]
+            if e["kind"] == "pert":
+                reqs = [nc + 2]
+            elif q:
+                reqs = [r_ for r_ in reqs if r_ != nc + 1]
             for req in reqs:
                 npc = min(req, nc)
                 kind = "zero" if rk == 0 else ("beyond-rank" if npc > rk else "within-rank")
@@ -126,12 +130,21 @@ def build_cases(ctx, recs):
                     if all(e["cc"][c0 + j] == 1 for j in range(wi)):
                         cb = 1
                     c0 += wi
-                for req in ([minw + 2] if q else range(1, minw + 3)):
+                for req in ([minw + 2] if q else [1, minw + 2]):
                     npc = min(req, minw)
                     kind = "zero" if rk == 0 else ("const-block" if cb else ("beyond-rank" if npc > rk else "within-rank"))
                     add("CPCA", kind, e, req, npc, rk, rk, noise, cblk=cb, widths=w)
+        if e["kind"] == "mat" and nc >= 2 and (not q or idx % 2 == 1):
+            # two blocks of nc columns each, so that more components than the rank can be requested: the matrix twice (same exact rank),
+            # and the matrix next to a constant block (zero after centring: same exact rank, block variance 0)
+            allconst = all(c == 1 for c in e["cc"])
+            for cells, cb in (([r_ + r_ for r_ in e["cells"]], 1 if allconst else 0), ([r_ + [1] * nc for r_ in e["cells"]], 1)):
+                for req in ([nc + 2] if q else [1, nc + 2]):
+                    npc = min(req, nc)
+                    kind = "zero" if rk == 0 else ("const-block" if cb else ("beyond-rank" if npc > rk else "within-rank"))
+                    add("CPCA", kind, e, req, npc, rk, rk, noise, cblk=cb, widths=(nc, nc), cells=cells)
         if e["kind"] == "resp":
-            for req in (([1, nc + 2] if idx % 2 == 0 else [nc]) if q else range(1, nc + 3)):
+            for req in (([1, nc + 2] if idx % 2 == 0 else [nc]) if q else ([1, nc + 2] if idx % 2 == 0 else [nc, nc + 1])):
                 npc = min(req, nc)
                 if e["ycst"]:
                     kind, rlo, rhi = "const-response", 0, 0
@@ -143,7 +156,9 @@ def build_cases(ctx, recs):
             # two responses: y and its reverse (collinear / constant pairs included)
             y2 = list(reversed(e["y"]))
             c2 = cov.get((json.dumps(e["cells"]), tuple(y2)))
-            if c2 is not None and (not q or idx % 2 == 0):
+            if c2 is None:      # thorough tier enumerates responses up to complement (same centred direction, same flags)
+                c2 = cov.get((json.dumps(e["cells"]), tuple(1 - v for v in y2)))
+            if c2 is not None and idx % 2 == 0:
                 ycst = e["ycst"] and c2[1]
                 npc = nc
                 if ycst:
@@ -158,9 +173,9 @@ def build_cases(ctx, recs):
                 for i in range(nr):
                     ys += [e["y"][i], y2[i]]
                 add("PLS", kind, e, nc + 2, npc, rhi, rlo, noise, ys=ys)
-            if not q or idx % 4 == 0:
+            if idx % 4 == 0:
                 add("MLRLOO", "rank-deficient" if e["rank0"] < nc or rk < nc else "regular", e, 1, 1, rk, rk, noise, ys=list(e["y"]))
-            if nc >= 2 and (not q or idx % 4 == 1):
+            if nc >= 2 and idx % 4 == 1:
                 add("NM", "rank-deficient" if e["rank0"] < nc else "regular", e, 60, 60, rk, rk, noise, ys=list(e["y"]))
         if e["kind"] == "mat" and nr >= 2 and (not q or idx % 2 == 0):
             distinct = len(set(tuple(r_) for r_ in e["cells"]))
@@ -224,7 +239,8 @@ def run_cases(ctx, cases, budget, child_timeout, maxdiv, label):
         blocks = tlc.split_blocks(events)
         if not blocks:
             raise InfraError("c18 harness produced no events")
-        if not any(e.get("e") == "Iter" for e in events):
+        need_iter = any(c["site"] in ("PCA", "PLS", "CPCA") and c["rank"] > 0 and c["rlo"] > 0 for c in cases)
+        if need_iter and not any(e.get("e") == "Iter" for e in events):
             raise InfraError("no Iter events: hook H4 is not firing (hooks removed or guard off)")
         ctx.note("%s: %d cases run in child processes (%d skipped after %d diverging cases per (site, kind)), %d events" % (label, len(blocks), skipped, maxdiv, len(events)))
         unguarded = set()
@@ -265,13 +281,11 @@ def run_cases(ctx, cases, budget, child_timeout, maxdiv, label):
                                   label="trace_nipals_diverging_" + label)
             if n != len(firsts):
                 raise InfraError("a diverging / non-finite execution was accepted by TraceNipals (%d rejected of %d)" % (n, len(firsts)))
-        nchunk = 0
         CH = 4000
-        for i in range(0, len(clean), CH):
-            ev = [e for b in clean[i:i + CH] for e in b]
-            trace.check_trace(ctx, "TraceNipals", "Trace_Nipals.cfg", "Trace_Nipals_prop.cfg", ev, on_reject, drop="block", max_rounds=16,
-                              label="trace_nipals_%s_%d" % (label, nchunk), timeout=1500, xmx="6g")
-            nchunk += 1
+        chunks = [[e for b in clean[i:i + CH] for e in b] for i in range(0, len(clean), CH)]
+        with ThreadPoolExecutor(max(1, min(4, PAR // 2))) as ex:
+            list(ex.map(lambda t: trace.check_trace(ctx, "TraceNipals", "Trace_Nipals.cfg", "Trace_Nipals_prop.cfg", t[1], on_reject, drop="block", max_rounds=16,
+                                                     label="trace_nipals_%s_%d" % (label, t[0]), timeout=1500, xmx="4g"), enumerate(chunks)))
         ctx.traces(len(clean) + len(firsts))
         return blocks, clean
     finally:
@@ -317,7 +331,6 @@ def replay(ctx, body):
     if not case:
         return run(ctx)
     c = dict(case)
-    c["id"] = 1
     blocks, clean = run_cases(ctx, [c], 1000000, 30, 1, "replay")
     ctx.case(("replay2", c["site"], c["kind"]))
     ctx.sample(dict(case=c, events=blocks[0][:14]))
